@@ -155,7 +155,10 @@ func (p *Program) Assemble() ([]bpf.Instruction, error) {
 			return nil, err
 		}
 
-		if skipTrue == 0 && skipFalse == 0 {
+		// A jump is useless if both of its labels mark the next instruction. The position of a label is the
+		// last of its destinations; the ones in front of it are instructions that bridge long jumps, which
+		// are also found here if the program is assembled a second time.
+		if p.labelIndex(jump.trueLabel) == jump.index+1 && p.labelIndex(jump.falseLabel) == jump.index+1 {
 			return nil, fmt.Errorf("useless jump found")
 		}
 
@@ -193,6 +196,12 @@ func (p *Program) computeSkips(jump JumpIf) (skipTrue int, skipFalse int, err er
 		return 0, 0, err
 	}
 	return skipTrue, skipFalse, nil
+}
+
+// labelIndex returns the index of the instruction that the label marks.
+func (p *Program) labelIndex(label Label) Index {
+	dest := p.labels[label]
+	return dest[len(dest)-1]
 }
 
 // bridgeLongJump inserts an instruction directly behind the jump that continues at the destination of the
